@@ -750,7 +750,7 @@ VOP(sch_run)
 			}
 			Utility::Sleep(0.02);
 			if (quiet == 1) touch(1, [&](CkInfo& k) { k.obj->SetAuthority(false); k.paused = true; });
-			else touch(1, [&](CkInfo& k) { CkRemoveObject(k.obj); k.exists = false; });
+			else { Record({'Z', NowUs(), 1}); touch(1, [&](CkInfo& k) { CkRemoveObject(k.obj); k.exists = false; }); }
 			Snapshot(checker, nlive.load());
 			while (Utility::GetTime() < endAt) Utility::Sleep(0.05);   // silence
 			return;
@@ -788,7 +788,7 @@ VOP(sch_run)
 				touch(c, [&](CkInfo& k) { k.inperiod = !k.inperiod; k.obj->SetCheckPeriodRaw(k.inperiod ? "" : "sch_never"); });
 			} else if (op < 90) {    // delete at runtime (never the carrier host)
 				if (c == 0) continue;
-				touch(c, [&](CkInfo& k) { CkRemoveObject(k.obj); k.exists = false; });
+				{ Record({'Z', NowUs(), c}); touch(c, [&](CkInfo& k) { CkRemoveObject(k.obj); k.exists = false; }); }
 			} else {                 // create at runtime
 				if (n >= ncap) continue;
 				int id = n;
@@ -844,6 +844,7 @@ VOP(sch_run)
 			case 'X': o << "X " << r.a << " " << r.b << " " << r.c; break;
 			case 'D': o << "D " << r.a << " " << r.b; break;
 			case 'C': o << "C " << r.a << " " << r.b; break;
+			case 'Z': o << "Z " << r.a << " " << r.b; break;   // the driver is about to delete (deactivate) the checkable
 			case 'R': o << "R " << r.a << " " << r.b << " " << r.c; break;
 			case 'E': o << "E " << r.a << " " << r.b; break;
 			case 'P': o << "P " << r.a << " " << r.s; break;
